@@ -451,6 +451,8 @@ def p_leg(ctx, drv, lines, couts, expect):
             elif c.startswith("ok "):
                 _, ch, used = c.split()
                 if int(used) > size: fails.append((l, c, "consumed more octets than available", None))
+                if unhx(ch) != twos_min(twos_val(unhx(ch))):
+                    fails.append((l, c, "decoded INTEGER contents not in the minimal form INTEGER_compare assumes (X.690 8.3.2)", None))
                 if l in expect and (twos_val(unhx(ch)), int(used)) != expect[l]:
                     fails.append((l, c, f"expected value {expect[l][0]}, consumed {expect[l][1]}", None))
             elif l in expect: fails.append((l, c, f"the standard encoding of {expect[l][0]} must be accepted", None))
